@@ -184,8 +184,17 @@ func runCheck(id, tier string, rest []string) int {
 	plan.Cfg.Debug = *debug
 	plan.Cfg.Trace = *trace
 	plan.Cfg.RepoPrefix = repoMod
+	if tier == "thorough" {
+		plan.Cfg.CrossCmd = "z3" // 4.8.12 re-decides what 5.1 proved in one-shot mode
+	}
+	if c := os.Getenv("SYMGO_CROSS"); c != "" {
+		plan.Cfg.CrossCmd = c
+	}
 	if plan.Solver == "" {
 		plan.Solver = "z3"
+	}
+	if sv := os.Getenv("SYMGO_SOLVER"); sv != "" {
+		plan.Solver = sv
 	}
 	if plan.TimeoutMs == 0 {
 		plan.TimeoutMs = 60000
